@@ -165,6 +165,19 @@ func (d *disp) VarlinkDispatch(ctx context.Context, c varlink.Call, method strin
 				return err
 			}
 			log("D:ok")
+		case 'L':
+			// a streaming handler: continues replies until one of them fails (that is how it learns the peer is gone)
+			for i := 0; i < 6; i++ {
+				n++
+				c.Continues = true
+				err := c.Reply(ctx, map[string]int{"c": n})
+				c.Continues = false
+				if err != nil {
+					log("L:ioerr")
+					return err
+				}
+				log("L:ok")
+			}
 		case 'X':
 			log("X")
 			return errors.New("handler error")
